@@ -108,6 +108,7 @@ func (s bset) String() string {
 type lexState struct {
 	cur, peek bset
 	vals      map[ssa.Value]bset
+	contents  map[ssa.Value]bset // bytes a local []byte value may contain
 	alias     map[ssa.Value]int // 1 = current byte, 2 = look-ahead byte (since the last advance)
 	noAdv     bool              // no advance has happened since the analysed root was entered (on every path)
 	live      bool
@@ -119,6 +120,12 @@ func (s *lexState) clone() *lexState {
 	n := &lexState{cur: s.cur, peek: s.peek, noAdv: s.noAdv, live: s.live, flagU: s.flagU, flagMust: s.flagMust, vals: make(map[ssa.Value]bset, len(s.vals)), alias: make(map[ssa.Value]int, len(s.alias))}
 	for k, v := range s.vals {
 		n.vals[k] = v
+	}
+	if len(s.contents) > 0 {
+		n.contents = make(map[ssa.Value]bset, len(s.contents))
+		for k, v := range s.contents {
+			n.contents[k] = v
+		}
 	}
 	for k, v := range s.alias {
 		n.alias[k] = v
@@ -161,6 +168,14 @@ func (s *lexState) join(o *lexState) bool {
 			if a, ok := o.alias[k]; ok {
 				s.alias[k] = a
 			}
+		}
+	}
+	for k, v := range o.contents {
+		if s.contents == nil {
+			s.contents = map[ssa.Value]bset{}
+		}
+		if old, ok := s.contents[k]; !ok || old.union(v) != old {
+			s.contents[k], ch = old.union(v), true
 		}
 	}
 	for k, a := range s.alias {
@@ -581,6 +596,18 @@ func (lf *lexFacts) transfer(cx *lexCtx, s *lexState, in ssa.Instruction) {
 		}
 	case *ssa.Call:
 		cx.before[x] = s.clone()
+		if b, ok := x.Call.Value.(*ssa.Builtin); ok && b.Name() == "append" && isByteSlice(x.Type()) {
+			u := lf.contentSet(s, x.Call.Args[0])
+			if el, ok := sliceLitElems(x.Call.Args[1]); ok {
+				for _, e := range el {
+					u = u.union(lf.valSet(s, cx, e))
+				}
+			} else {
+				u = u.union(lf.contentSet(s, x.Call.Args[1]))
+			}
+			s.setContent(x, u)
+			return
+		}
 		cal := x.Call.StaticCallee()
 		switch {
 		case cal == lf.peekFn:
@@ -625,6 +652,15 @@ func (lf *lexFacts) transfer(cx *lexCtx, s *lexState, in ssa.Instruction) {
 		}
 	case *ssa.Return:
 		cx.before[x] = s.clone()
+	case *ssa.Phi:
+		// byte slices carried by phis: union of the contents
+		if isByteSlice(x.Type()) {
+			var u bset
+			for _, e := range x.Edges {
+				u = u.union(lf.contentSet(s, e))
+			}
+			s.setContent(x, u)
+		}
 	case *ssa.Store:
 		if fa, ok := x.Addr.(*ssa.FieldAddr); ok && lf.nlFlag != nil && fieldOfAddr(fa) == lf.nlFlag {
 			cx.before[x] = s.clone()
@@ -639,7 +675,40 @@ func (lf *lexFacts) transfer(cx *lexCtx, s *lexState, in ssa.Instruction) {
 		if fa, ok := u.X.(*ssa.FieldAddr); ok && namedIs(fa.X.Type(), "lexer", "Lexer") {
 			cx.before[u] = s.clone()
 		}
+		// element of a local byte slice
+		if ia, ok := u.X.(*ssa.IndexAddr); ok && isByteSlice(ia.X.Type()) {
+			s.vals[u] = lf.contentSet(s, ia.X)
+		}
 	}
+}
+
+func (s *lexState) setContent(v ssa.Value, u bset) {
+	if s.contents == nil {
+		s.contents = map[ssa.Value]bset{}
+	}
+	s.contents[v] = u
+}
+
+func isByteSlice(t types.Type) bool {
+	sl, ok := t.Underlying().(*types.Slice)
+	return ok && isByte(sl.Elem())
+}
+
+// contentSet: the bytes a local []byte value may contain (built by append from tracked bytes); unknown = any.
+func (lf *lexFacts) contentSet(s *lexState, v ssa.Value) bset {
+	if k, ok := v.(*ssa.Const); ok && k.IsNil() {
+		return bset{}
+	}
+	if cs, ok := s.contents[v]; ok {
+		return cs
+	}
+	if _, ok := v.(*ssa.Phi); ok {
+		return bset{} // not yet computed on this path (loop-carried): grows by the fixpoint
+	}
+	if _, ok := isBuiltinCall(v, "append"); ok {
+		return bset{} // defined on a path not taken yet: grows by the fixpoint
+	}
+	return allBytes
 }
 
 func (lf *lexFacts) advanceState(s *lexState) {
